@@ -396,7 +396,7 @@ pub fn classify_hang(r: &ExecResult) -> Option<Finding> {
     if !unknown.is_empty() || (!kf4 && !kf6) {
         unknown.sort();
         unknown.dedup();
-        return Some(fnd(&format!("deadlock:{}", if unknown.is_empty() { "timeout".to_string() } else { unknown.join(",") }), format!("a client call never returned or stop() timed out — {}", desc)));
+        return Some(fnd(&format!("deadlock:{}", if !unknown.is_empty() { unknown.join(",") } else if r.stuck.iter().any(|s| s.role != Role::Internal) { "wait-cycle".to_string() } else { "timeout".to_string() }), format!("a client call never returned or stop() timed out — {}", desc)));
     }
     let sig = match (kf4, kf6) {
         (true, true) => "hang-iter-dropped-unread+created-after-stop",
